@@ -63,6 +63,16 @@ pub struct GState {
     pub init: Init,
     pub data: Vec<(String, String)>,
     pub donedata: Option<Vec<(String, String)>>,
+    pub invokes: Vec<GInvoke>,
+}
+
+/// `<invoke type="scxml" id=… [autoforward]><content>child document</content>[<finalize>]</invoke>`
+#[derive(Clone, Debug)]
+pub struct GInvoke {
+    pub id: String,
+    pub autoforward: bool,
+    pub finalize: Option<Vec<GItem>>,
+    pub child_xml: String,
 }
 
 #[derive(Clone, Debug)]
@@ -137,6 +147,7 @@ fn gen_state(c: &mut Ctx, depth: usize, allow_final: bool, force_kind: Option<Ki
         init: Init::Default,
         data: vec![],
         donedata: None,
+        invokes: vec![],
     };
     match kind {
         Kind::Final => {}
@@ -562,6 +573,15 @@ fn render_state(s: &GState, out: &mut String) {
     for t in &s.trans {
         render_trans(t, out);
     }
+    for i in &s.invokes {
+        out.push_str(&format!("<invoke type=\"scxml\" id=\"{}\"{}><content>{}</content>", i.id, if i.autoforward { " autoforward=\"true\"" } else { "" }, i.child_xml));
+        if let Some(f) = &i.finalize {
+            out.push_str("<finalize>");
+            render_items(f, out);
+            out.push_str("</finalize>");
+        }
+        out.push_str("</invoke>");
+    }
     for h in &s.hist {
         out.push_str(&format!("<history id=\"{}\" type=\"{}\">", h.id, if h.deep { "deep" } else { "shallow" }));
         render_trans(&GTrans { targets: h.targets.clone(), content: h.content.clone(), ..Default::default() }, out);
@@ -637,6 +657,7 @@ fn leaf_region(id: &mut usize, ev: &mut usize, events: &mut Vec<String>, p: &mut
         init: Init::Default,
         data: vec![],
         donedata: None,
+        invokes: vec![],
     };
     let mut a = mk(format!("{}a", rid), Kind::State);
     let mut f = mk(format!("{}f", rid), Kind::Final);
@@ -688,6 +709,7 @@ fn par_region(depth: usize, id: &mut usize, ev: &mut usize, events: &mut Vec<Str
         init: Init::Default,
         data: vec![],
         donedata: None,
+        invokes: vec![],
     }
 }
 
@@ -708,6 +730,7 @@ pub fn gen_finals_doc(p: &mut Prng) -> (GDoc, Vec<String>) {
         init: Init::Default,
         data: vec![],
         donedata: None,
+        invokes: vec![],
     };
     // handlers for done.state.* on the outermost parallel: each logs, one of them leaves
     let outer = par.id.clone();
@@ -766,7 +789,7 @@ pub fn gen_finals_doc(p: &mut Prng) -> (GDoc, Vec<String>) {
 // in compound and parallel parents.
 
 fn st(id: String, kind: Kind) -> GState {
-    GState { id, kind, kids: vec![], hist: vec![], trans: vec![], onentry: vec![], onexit: vec![], init: Init::Default, data: vec![], donedata: None }
+    GState { id, kind, kids: vec![], hist: vec![], trans: vec![], onentry: vec![], onexit: vec![], init: Init::Default, data: vec![], donedata: None, invokes: vec![] }
 }
 
 fn gen_tree(p: &mut Prng, depth: usize, budget: &mut i32, next: &mut usize, force: Option<Kind>) -> GState {
